@@ -170,6 +170,22 @@ def handle (cmd : String) (args : List Int) : Option String :=
   | "C10.inv" => do
       let s ← run stateP args
       pure (encBool (attachedB s))
+  | "C10.normidx" => do
+      -- `n form payload`: form 0 = integers `len v…`; 1 = mask `len b…`; 2 = slice `hasStart start hasStop stop step`
+      let (n, idx) ← run (do
+        let n ← nat
+        let idx ← (do
+          match (← nat) with
+          | 0 => do return Idx.ints (← ints)
+          | 1 => do return Idx.mask ((← ints).map (· != 0))
+          | 2 => do
+              let hs ← bool; let a ← int; let he ← bool; let b ← int; let st ← int
+              return Idx.slice (if hs then some a else none) (if he then some b else none) st
+          | _ => failure : P Idx)
+        pure (n, idx)) args
+      match normIdx n idx with
+      | some l => pure ("some " ++ encNats l)
+      | none => pure "none"
   | "C10.uxcalls" => do
       run (pure ()) args
       pure (" ".intercalate uxCallNames)
